@@ -60,7 +60,7 @@ template <int S, int D> struct Run {
     F.push_back({"empty time vector", [](Call<D> &k) { k.T.clear(); k.tp.clear(); }});
     F.push_back({"non-increasing time points / zero duration", [](Call<D> &k) { if (!k.T.empty()) k.T.back() = 0.0; if (k.tp.size() >= 2) k.tp.back() = k.tp[k.tp.size() - 2]; }});
     F.push_back({"decreasing time points / negative duration", [](Call<D> &k) { if (!k.T.empty()) k.T[0] = -0.5; if (k.tp.size() >= 2) k.tp[1] = k.tp[0] - 0.5; }});
-    auto one = [&](const Call<D> &k, const std::string &what) { Opt o; bool stores, want = model_valid<D>(S, k, stores); bool ret = invoke(o, k); coherent(o, ret, want, stores ? want : false, stores, what); c.st.cls(want ? "verdict: accepted" : "verdict: rejected"); };
+    auto one = [&](const Call<D> &k, const std::string &what) { Opt o; bool stores, want = model_valid<D>(S, k, stores); bool ret = invoke(o, k); coherent(o, ret, want, stores ? want : false, stores, what); c.st.cls(want ? "verdict: accepted" : "verdict: rejected"); if (!c.st.seen(fmt("%d/%d/", S, D) + what)) ++c.st.nontrivial; };
     for (int tp = 0; tp < 2; ++tp) {
       Call<D> base = base_call<D>(S, N, 60 + N, tp);
       one(base, fmt("N=%d %s overload, no fault", N, tp ? "time-point" : "duration"));
@@ -87,7 +87,7 @@ template <int S, int D> struct Run {
       for (long q = 0; q < tot; ++q) { Opt o; bool stored_valid = false, any = false; long qq = q; std::string hist;
         for (int i = 0; i < len; ++i) { int a = qq % A; qq /= A; hist += (i ? " ; " : "") + names[a]; bool stores, want = model_valid<D>(S, ops[a], stores); if (stores) { stored_valid = want; any = true; } bool ret = invoke(o, ops[a]);
           if (!coherent(o, ret, want, stored_valid, any, "history [" + hist + "]")) { i = len; } }
-        c.st.cls(fmt("initialisation histories of length %d", len)); } }
+        c.st.cls(fmt("initialisation histories of length %d", len)); if (!c.st.seen(fmt("h/%d/%d/%d/%ld", S, D, len, q))) ++c.st.nontrivial; } }
   }
 };
 
